@@ -171,6 +171,58 @@ def register(op):
         objs = [[i, show(k)] for i, k in enumerate(known)]
         return [outs, o, runs, objs]
 
+    @op("cx_split_hist_check")
+    def _(a):
+        """direct statement of the object-level clause on a history: after the complexes made beforehand, the complex
+        itself and one consumed split(), (i) every yielded object is a component of the complex (up to strand rotation),
+        each component is yielded once, (ii) no two DISTINCT live complexes are strand rotations of each other (so a
+        component that existed beforehand, in any rotation, is the object that split() yields)"""
+        import os, sys
+        sys.path.insert(0, os.path.dirname(os.path.dirname(os.path.abspath(__file__))))
+        import gen_pil, loops_common as lc
+        pre, me = a
+        fresh()
+        names = [n for item in pre + [me] for n in item[0]]
+        _, keep = domains(names)
+        held = []
+        for seq, sst, nm in pre + [me]:
+            dseq = [n if n == "+" else keep[n] for n in seq]
+            try:
+                held.append(bc.ComplexS(dseq, list(sst)) if nm is None else bc.ComplexS(dseq, list(sst), nm))
+            except Exception as e:
+                ex = getattr(e, "existing", None)
+                if ex is not None:
+                    held.append(ex)
+                if (seq, sst, nm) == tuple(me) or [seq, sst, nm] == me:
+                    return []
+        c = held[-1]
+        bad = []
+        try:
+            parts = list(c.split())
+        except Exception as e:
+            parts = None
+        def canon(o):
+            return gen_pil.canon([str(x) for x in o.sequence], list(o.structure))
+        if parts is not None:
+            s = "".join(me[1])
+            want = sorted(repr(gen_pil.canon(*lc.component_complex(me[0], s, ids, 0))) for ids in lc.components(s))
+            got = sorted(repr(canon(p)) for p in parts)
+            if got != want:
+                bad.append(f"split() yielded {[(list(map(str, p.sequence)), ''.join(p.structure)) for p in parts]}, not the connected components")
+            held += parts
+        live = []
+        for o in held:
+            if not any(o is x for x in live):
+                live.append(o)
+        for i, x in enumerate(live):
+            for y in live[i + 1:]:
+                if canon(x) == canon(y):
+                    bad.append(f"two distinct live complexes are strand rotations of each other: {x.name} = {x.kernel_string} and "
+                               f"{y.name} = {y.kernel_string}")
+        del held, live, parts, c
+        fresh()
+        return bad[:3]
+
     @op("toggle")
     def _(a):
         fresh()
